@@ -11,6 +11,12 @@ CHECKS = {
  "C10": dict(cat="exploration", tech="differential monitor against math/big + output re-parsing monitors (runtime monitoring of real executions)",
    text="Every `$a op $b` execution of the real library on boundary integers in all exact Go representations is compared with math/big (exactness, sign of modulo, zero-divisor errors, no wrap-around); number literals of every lexical shape are pushed through 40+ identity-like filters (library and real cmd/gojq process) and must come out with identical digits; computed floats of all bit-pattern classes must print as valid JSON that parses back to the same bits with the shortest digit string. Thorough enumerates all ordered pairs of the ~1200-value boundary set for each operator (14M evaluations).",
    ref="4/C10"),
+ "C11": dict(cat="exploration", tech="invariant monitor over the real Compare on an exhaustively enumerated triple space + differential monitor of sort-family builtins against a specification comparator",
+   text="gojq.Compare is called on every ordered pair of a ~200-value universe (420 in thorough) and the order axioms are asserted over every ordered triple (exhaustive: 8M / 74M triples); each pair is also evaluated through the six comparison operators by the real VM and through an independent comparator written from the manual. 250k (3M) generated arrays exercise sort, sort_by, unique, unique_by, group_by, min/max(_by), bsearch, array subtraction, index/rindex/indices and object key order (keys, iteration, to_entries, paths, tostream, Marshal, tojson and the real command) against stable-sort/partition/extreme definitions computed with the specification comparator, comparing Go representations strictly so stability is visible.",
+   ref="4/C11"),
+ "C07": dict(cat="fault_enumeration", tech="fault injection at every interpreter poll via a poll-counting context.Context + prefix/terminal oracle against the uncancelled run",
+   text="For ~730 (program, input, option) cases (1500 in thorough) covering every loop form, native iterators, input iterators, Query.RunWithContext and argument-count errors, the context is closed at the k-th ctx.Done() poll for every k up to 400 and sampled k beyond; the cancelled run must emit exactly the uncancelled run's events before its k-th poll, then ctx.Err(), then be exhausted, without a single further poll or panic. Independently every iterator is driven past exhaustion and past every error value.",
+   ref="4/C07"),
 }
 
 checks = []
